@@ -13,6 +13,7 @@
 //! Implementation-only oracles:
 //!   rs  P seed nblocks level            random read/read_exact/seek op sequences, MT vs ST, delayed inflate tasks
 //!   rfd P seed level                    frame-level error, then seek, then finish: the error must not vanish
+//!   rce P seed                          P+5 corrupt blocks, the caller keeps reading: every read must return
 
 use std::{
     collections::{HashSet, VecDeque},
@@ -355,6 +356,8 @@ fn end_case(ctl: &Arc<Ctl>) {
     verif_gate::set(None);
 }
 
+const LIMIT: (Duration, Duration) = (Duration::from_secs(10), Duration::from_secs(8));
+
 enum Watched<T> {
     Done(T),
     Panicked(String),
@@ -365,6 +368,7 @@ enum Watched<T> {
 fn watched<T: Send + 'static>(
     ctl: &Arc<Ctl>,
     rel: Option<(&[u64], Duration)>,
+    limit: (Duration, Duration),
     f: impl FnOnce() -> T + Send + 'static,
 ) -> (Watched<T>, Result<(), String>) {
     let (tx, rx) = mpsc::channel();
@@ -378,12 +382,12 @@ fn watched<T: Send + 'static>(
         Some((rel, delay)) => ctl.control(rel, delay),
         None => Ok(()),
     };
-    let w = match rx.recv_timeout(Duration::from_secs(10)) {
+    let w = match rx.recv_timeout(limit.0) {
         Ok(Outcome::Done(v)) => Watched::Done(v),
         Ok(Outcome::Panicked(m)) => Watched::Panicked(m),
         Err(_) => {
             ctl.open_all();
-            match rx.recv_timeout(Duration::from_secs(8)) {
+            match rx.recv_timeout(limit.1) {
                 Ok(_) => Watched::Hung(true),
                 Err(_) => Watched::Hung(false),
             }
@@ -535,7 +539,10 @@ fn sink_obs(bytes: &[u8], calls: usize, err: bool, data: &[u8]) -> (String, Vec<
                 let l = pl.len();
                 if off + l <= data.len() && data[off..off + l] == pl[..] {
                     parts.push(format!("{off}:{l}"));
-                } else if let Some(q) = (0..data.len().saturating_sub(l) + 1).find(|&q| data[q..q + l] == pl[..]) {
+                } else if let Some(q) = (l <= data.len())
+                    .then(|| (0..data.len() - l + 1).find(|&q| data[q..q + l] == pl[..]))
+                    .flatten()
+                {
                     parts.push(format!("{q}:{l}"));
                 } else {
                     parts.push(format!("?:{l}"));
@@ -590,7 +597,7 @@ fn run_w(c: &Case) -> Obs {
     let mt_sink = FaultySink::new(fault_script(fail));
     let delay = Duration::from_micros(if ops.iter().any(|o| matches!(o, Op::W(n) if *n > 8192)) { 2500 } else { 400 });
     let (ops2, data2, sink2) = (ops.clone(), data.clone(), mt_sink.clone());
-    let (w, ctl_res) = watched(&ctl, Some((&rel, delay)), move || drive_mt_writer(&ops2, &data2, level, sink2));
+    let (w, ctl_res) = watched(&ctl, Some((&rel, delay)), LIMIT, move || drive_mt_writer(&ops2, &data2, level, sink2));
     let timeouts = ctl.st.lock().unwrap().gate_timeouts;
     end_case(&ctl);
 
@@ -819,7 +826,7 @@ fn run_r(c: &Case) -> Obs {
     let ctl = Ctl::new(Kind::Inflate, None);
     ctl.install();
     let file2 = file.clone();
-    let (w, ctl_res) = watched(&ctl, Some((&rel, Duration::from_micros(400))), move || {
+    let (w, ctl_res) = watched(&ctl, Some((&rel, Duration::from_micros(400))), LIMIT, move || {
         let mut r = bgzf::io::MultithreadedReader::new(Cursor::new(file2));
         let run = consume_blocks(&mut r);
         let fin = r.finish().map(|_| ()).map_err(|e| nv::errkind(&e));
@@ -1010,7 +1017,7 @@ fn run_rs(c: &Case) -> Obs {
     let ctl = Ctl::new(Kind::Inflate, Some(seed));
     ctl.install();
     let (file2, ops2) = (file.clone(), ops.clone());
-    let (w, _) = watched(&ctl, None, move || {
+    let (w, _) = watched(&ctl, None, LIMIT, move || {
         let mut r = bgzf::io::MultithreadedReader::new(Cursor::new(file2));
         let out = exec(&mut r, &ops2);
         let fin = r.finish().map(|_| ()).map_err(|e| nv::errkind(&e));
@@ -1033,8 +1040,26 @@ fn run_rs(c: &Case) -> Obs {
         let st_stale = matches!(ops.get(i), Some(ROp::Read(n)) if *n >= 65536)
             && st.get(i).is_some_and(|s| s.contains("untouched-buffer"))
             && mt.get(i).is_some_and(|s| s.contains("-> ok 0 "));
+        // second known cause, same family (candidate F1): after a seek to the end-of-file virtual
+        // position both readers keep the previous block as current and re-deliver it; the
+        // single-threaded reader's block buffer holds garbage when that block had been decoded
+        // straight into the caller's >= 64 KiB buffer (read_block_into_buf), the MT reader's holds
+        // the block's real bytes.  Derived from the input: the last seek before the first
+        // differing op targets the end of the file and a >= 64 KiB read preceded it.
+        let last_seek = ops[..i.min(ops.len())].iter().rposition(|o| matches!(o, ROp::Seek(..)));
+        let after_eof_seek = last_seek.is_some_and(|j| {
+            matches!(ops[j], ROp::Seek(cp, 0) if cp == file.len() as u64)
+                && ops[..j].iter().any(|o| matches!(o, ROp::Read(n) if *n >= 65536))
+        });
         return o.with_verdict(Err((
-            if st_stale { "str-read-into-buf-at-eof-returns-stale-length" } else { "mtr-ops-differ-from-st" }.into(),
+            if st_stale {
+                "str-read-into-buf-at-eof-returns-stale-length"
+            } else if after_eof_seek {
+                "str-stale-block-garbage-after-seek-to-eof"
+            } else {
+                "mtr-ops-differ-from-st"
+            }
+            .into(),
             format!("{ctx} op#{i} mt=[{}] st=[{}] lens={lens:?} history={:?}", mt.get(i).map_or("-", |s| s), st.get(i).map_or("-", |s| s), &st[..i.min(st.len())]),
         )));
     }
@@ -1063,7 +1088,7 @@ fn run_rfd(c: &Case) -> Obs {
     file.truncate(lp + lsz - 5);
     let ctl = Ctl::new(Kind::Inflate, Some(seed));
     ctl.install();
-    let (w, _) = watched(&ctl, None, move || {
+    let (w, _) = watched(&ctl, None, LIMIT, move || {
         let mut r = bgzf::io::MultithreadedReader::new(Cursor::new(file));
         let mut b = vec![];
         let r1 = r.read_to_end(&mut b).map_err(|e| nv::errkind(&e));
@@ -1092,6 +1117,60 @@ fn run_rfd(c: &Case) -> Obs {
         }
         Watched::Panicked(m) => Obs::fail("-", "mtr-panic", format!("{ctx} {m}")),
         Watched::Hung(_) => Obs::fail("-", "mtr-hang", ctx),
+    }
+}
+
+/// every block of the file is corrupt (CRC) and the caller keeps reading after each error: every
+/// read must return (an error), never block forever
+fn run_rce(c: &Case) -> Obs {
+    let (p, seed) = (c.u(0), c.u(1));
+    if let Err(o) = check_pool(p) {
+        return o;
+    }
+    let n = p as usize + 5; // more corrupt blocks than the reader has buffers (P + 2)
+    let lens: Vec<usize> = (0..n).map(|i| 50 + i).collect();
+    let (mut file, _) = build_file(&lens, seed, 6, 1);
+    let (frames, _) = split_frames(&file);
+    for &(fp, sz) in &frames[..n] {
+        file[fp + sz - 8] ^= 1;
+    }
+    let ctl = Ctl::new(Kind::Inflate, Some(seed));
+    ctl.install();
+    let progress = Arc::new(Mutex::new(0usize));
+    let pr2 = progress.clone();
+    let (w, _) = watched(&ctl, None, (Duration::from_millis(2500), Duration::from_millis(300)), move || {
+        let mut r = bgzf::io::MultithreadedReader::new(Cursor::new(file));
+        let mut b = [0u8; 16];
+        let mut errs = 0;
+        for _ in 0..(2 * n) {
+            match r.read(&mut b) {
+                Ok(0) => break,
+                Ok(_) => {}
+                Err(_) => errs += 1,
+            }
+            *pr2.lock().unwrap() = errs;
+        }
+        errs
+    });
+    end_case(&ctl);
+    let ctx = format!("P={p} corrupt_blocks={n} buffers={}", p + 2);
+    match w {
+        Watched::Done(errs) => {
+            let o = Obs::ok("-", true);
+            if errs != n {
+                o.with_verdict(Err(("mtr-corrupt-blocks-not-all-reported".into(), format!("{ctx} errors={errs}"))))
+            } else {
+                o
+            }
+        }
+        Watched::Panicked(m) => Obs::fail("-", "mtr-panic", format!("{ctx} {m}")),
+        Watched::Hung(_) => {
+            let seen = *progress.lock().unwrap();
+            // the known cause: each Err ticket drops its Buffer, so after P+2 errors no buffer is
+            // left to recycle and read() blocks forever
+            let tag = if seen == p as usize + 2 { "mtr-read-hangs-after-buffer-count-corrupt-blocks" } else { "mtr-hang" };
+            Obs::fail("-", tag, format!("{ctx} read() did not return after {seen} reported errors"))
+        }
     }
 }
 
@@ -1155,6 +1234,47 @@ fn generate(rng: &mut Rng, tier: &str, w: &mut CaseWriter) {
                 fmt_rel(&rel),
                 rng.next().to_string(),
                 rng.below(2).to_string(),
+            ],
+        );
+    }
+    // writer, staging boundary: the buffer reaches MAX_BUF-1 / MAX_BUF / MAX_BUF+1 with and without a
+    // following write or flush
+    for i in 0..(12 * scale) {
+        let p = pool_for(rng, i + 2);
+        let a = rng.range(0, 3000) as usize;
+        let d = [0usize, 1, 2, 3][(i % 4) as usize]; // target MAX_BUF-1+d-1 ...
+        let target = MAX_BUF + d - 2; // MAX_BUF-2 .. MAX_BUF+1
+        let mut ops = vec![];
+        if a > 0 {
+            ops.push(Op::W(a));
+        }
+        ops.push(Op::W(target - a));
+        match i % 3 {
+            0 => ops.push(Op::W(rng.range(1, 50) as usize)),
+            1 => {
+                ops.push(Op::F);
+                ops.push(Op::W(rng.range(1, 50) as usize));
+            }
+            _ => {
+                ops.push(Op::W(1));
+                ops.push(Op::W(1));
+                ops.push(Op::F);
+                ops.push(Op::W(MAX_BUF));
+                ops.push(Op::W(3));
+            }
+        }
+        let n = count_blocks(&ops);
+        let rel = gen_rel(rng, n, p as usize, false, [1, 2][(i % 2) as usize]);
+        w.push(
+            "w",
+            vec![
+                p.to_string(),
+                rng.pick(&[0u64, 6]).to_string(),
+                "-".into(),
+                fmt_ops(&ops),
+                fmt_rel(&rel),
+                rng.next().to_string(),
+                "1".into(),
             ],
         );
     }
@@ -1297,6 +1417,9 @@ fn generate(rng: &mut Rng, tier: &str, w: &mut CaseWriter) {
     for p in [1u64, 2, 4] {
         w.push("rfd", vec![p.to_string(), rng.next().to_string(), "6".into()]);
     }
+    for p in [1u64, 3] {
+        w.push("rce", vec![p.to_string(), rng.next().to_string()]);
+    }
 }
 
 fn permute(p: &mut Vec<usize>, k: usize, out: &mut Vec<Vec<usize>>) {
@@ -1335,13 +1458,14 @@ fn run(c: &Case) -> Obs {
         "r" => run_r(c),
         "rs" => run_rs(c),
         "rfd" => run_rfd(c),
+        "rce" => run_rce(c),
         k => Obs::fail("-", "harness-unknown-kind", k),
     }
 }
 
 fn case_pool(c: &Case) -> u64 {
     match c.kind.as_str() {
-        "w" | "r" | "rs" | "rfd" => c.u(0),
+        "w" | "r" | "rs" | "rfd" | "rce" => c.u(0),
         _ => 4,
     }
 }
